@@ -158,6 +158,33 @@ func NewSession(t *rapid.T, typ uint16, o SessionOpts) (*Session, error) {
 	for i := 0; i < nTok; i++ {
 		s.Nonces = append(s.Nonces, Bytes32().Draw(t, "nonce"))
 	}
+	// The library gets private copies of every byte argument. In half the cases the caller "reuses its
+	// buffers": the copies are overwritten as soon as the request has been created - a request state must not
+	// depend on memory the caller still owns.
+	var args [][]byte
+	arg := func(b []byte) []byte {
+		c := append([]byte{}, b...)
+		args = append(args, c)
+		return c
+	}
+	argList := func(l [][]byte) [][]byte {
+		out := make([][]byte, len(l))
+		for i := range l {
+			out[i] = arg(l[i])
+		}
+		return out
+	}
+	reuse := rapid.Bool().Draw(t, "callerReusesArgumentBuffers")
+	defer func() {
+		if reuse {
+			s.Mode += "+args-overwritten"
+			for _, a := range args {
+				for i := range a {
+					a[i] = 0xA5
+				}
+			}
+		}
+	}()
 	switch typ {
 	case 1:
 		s.OKey = o.OKey
@@ -169,9 +196,9 @@ func NewSession(t *rapid.T, typ uint16, o SessionOpts) (*Session, error) {
 		var err error
 		if withBlind {
 			s.Mode = "withblind"
-			s.State1, err = cl.C1.CreateTokenRequestWithBlind(s.Challenge, s.Nonces[0], s.KeyID, issuer.TokenKey(), P384Scalar().Draw(t, "blind"))
+			s.State1, err = cl.C1.CreateTokenRequestWithBlind(arg(s.Challenge), arg(s.Nonces[0]), arg(s.KeyID), issuer.TokenKey(), arg(P384Scalar().Draw(t, "blind")))
 		} else {
-			s.State1, err = cl.C1.CreateTokenRequest(s.Challenge, s.Nonces[0], s.KeyID, issuer.TokenKey())
+			s.State1, err = cl.C1.CreateTokenRequest(arg(s.Challenge), arg(s.Nonces[0]), arg(s.KeyID), issuer.TokenKey())
 		}
 		if err != nil {
 			return nil, fmt.Errorf("CreateTokenRequest: %v", err)
@@ -205,9 +232,9 @@ func NewSession(t *rapid.T, typ uint16, o SessionOpts) (*Session, error) {
 			for i := range blinds {
 				blinds[i] = RistrettoScalar().Draw(t, "blind")
 			}
-			s.State5, err = cl.C5.CreateTokenRequestWithBlinds(s.Challenge, s.Nonces, s.KeyID, issuer.TokenKey(), blinds)
+			s.State5, err = cl.C5.CreateTokenRequestWithBlinds(arg(s.Challenge), argList(s.Nonces), arg(s.KeyID), issuer.TokenKey(), argList(blinds))
 		} else {
-			s.State5, err = cl.C5.CreateTokenRequest(s.Challenge, s.Nonces, s.KeyID, issuer.TokenKey())
+			s.State5, err = cl.C5.CreateTokenRequest(arg(s.Challenge), argList(s.Nonces), arg(s.KeyID), issuer.TokenKey())
 		}
 		if err != nil {
 			return nil, fmt.Errorf("CreateTokenRequest: %v", err)
@@ -234,9 +261,9 @@ func NewSession(t *rapid.T, typ uint16, o SessionOpts) (*Session, error) {
 			s.Mode = "withblind"
 			blind := RSABlind(t, s.RKey.N)
 			salt := rapid.SliceOfN(rapid.Byte(), 48, 48).Draw(t, "salt")
-			s.State2, err = cl.C2.CreateTokenRequestWithBlind(s.Challenge, s.Nonces[0], s.KeyID, issuer.TokenKey(), blind, salt)
+			s.State2, err = cl.C2.CreateTokenRequestWithBlind(arg(s.Challenge), arg(s.Nonces[0]), arg(s.KeyID), issuer.TokenKey(), arg(blind), arg(salt))
 		} else {
-			s.State2, err = cl.C2.CreateTokenRequest(s.Challenge, s.Nonces[0], s.KeyID, issuer.TokenKey())
+			s.State2, err = cl.C2.CreateTokenRequest(arg(s.Challenge), arg(s.Nonces[0]), arg(s.KeyID), issuer.TokenKey())
 		}
 		if err != nil {
 			return nil, fmt.Errorf("CreateTokenRequest: %v", err)
@@ -292,7 +319,7 @@ func NewSession(t *rapid.T, typ uint16, o SessionOpts) (*Session, error) {
 			cl.C3[string(s.ClientSecret)] = client
 		}
 		var err error
-		s.State3, err = client.CreateTokenRequest(s.Challenge, s.Nonces[0], s.BlindKey, s.KeyID, s.Issuer3.TokenKey(), s.Origin, s.Issuer3.NameKey())
+		s.State3, err = client.CreateTokenRequest(arg(s.Challenge), arg(s.Nonces[0]), arg(s.BlindKey), arg(s.KeyID), s.Issuer3.TokenKey(), s.Origin, s.Issuer3.NameKey())
 		if err != nil {
 			return nil, fmt.Errorf("CreateTokenRequest: %v", err)
 		}
